@@ -16,7 +16,7 @@ RULE = ("Greenlets: every chain main <- G0 <- G1 <- G2 (length 1..3) with every 
         "the running stack (f_back walk from the asker to the greenlet boundary); unstarted/dead -> no frames; running in another "
         "thread (a non-main greenlet there, or that thread's MAIN greenlet while the thread runs in it, asked from this thread's main or a non-main greenlet; that thread's suspended and unstarted greenlets are extracted too) -> an error and no frames. This covers askers {outside, self, child, grandchild, parent}. Greenback: async/sync "
         "alternation depth 0..3 under trio (await_ given coroutines, and given non-coroutine awaitables) with the extraction taken from outside (callback while the task is blocked) and from "
-        "inside (innermost sync or async function): the user functions must appear exactly once each, in call order, and no "
+        "inside (innermost sync or async function, also from inside 1-2 plain greenlets started below the task's greenback greenlet): the user functions must appear exactly once each, in call order, and no "
         "visible frame may belong to await_, _greenback_shim or trampoline. The same towers under asyncio, where at one chosen level (each level in turn, or none) the task is cancelled while waiting and swallows the cancellation before going deeper, so that this level's bridge last resumed its coroutine by throwing an exception into it: besides the user functions only greenback's coroutine wrapper may be visible. evaluations = extractions checked; "
         "distinct_nontrivial = distinct (chain, depths, ask point, target) / (alternation depth, leaf kind, vantage).")
 ASSUMPTIONS = ["CPython only (a greenlet's outermost frame has f_back None)", "greenback's own coroutine wrapper frames (greenback_shim, adapt_awaitable) are not required to be hidden"]
@@ -229,24 +229,36 @@ def foreign_running(asker, nparked, depth):
 
 
 # ------------------------------------------------------------------ greenback
-def run_greenback(k, leaf, vantage, wrap=False):
+def run_greenback(k, leaf, vantage, wrap=False, nest=0):
     """k alternations: a0 -> s0 -> a1 -> s1 ... ; leaf in {'async','sync'} is the kind of the innermost function;
-    vantage in {'outside','inside'}."""
+    vantage in {'outside','inside'}.  nest (vantage 'inside' only): the innermost function takes the snapshot from
+    inside `nest` plain greenlets started below the task's greenback greenlet."""
     import trio
     import greenback
+    import greenlet
     import stackscope
     problems = []
     results = []
     order = []
+
+    snap_nest = [0]
+
+    def nested(fn, n):
+        if n == 0:
+            return fn()
+        return greenlet.greenlet(lambda: nested(fn, n - 1)).switch()
 
     def no_abort(_):
         return trio.lowlevel.Abort.FAILED
 
     def take_inside():
         task = trio.lowlevel.current_task()
-        with warnings.catch_warnings(record=True) as w:
-            warnings.simplefilter("always")
-            results.append((stackscope.extract(task.coro), [str(x.message)[:80] for x in w]))
+
+        def snap():
+            with warnings.catch_warnings(record=True) as w:
+                warnings.simplefilter("always")
+                results.append((stackscope.extract(task.coro), [str(x.message)[:80] for x in w]))
+        nested(snap, snap_nest[0])
 
     async def park_and_report():
         task = trio.lowlevel.current_task()
@@ -270,9 +282,17 @@ def run_greenback(k, leaf, vantage, wrap=False):
     ns = {"greenback": greenback, "W": (Deferred if wrap else (lambda c: c))}
     lines = []
     # generate functions a0, s0, a1, s1, ... with unique code objects
+    # with nest > 0 the outermost synchronous function runs everything below it inside `nest` plain greenlets (if there
+    # is no synchronous function at all, only the snapshot is taken from inside them)
+    top_nested = nest > 0 and (k >= 1 or leaf == "sync")
+    snap_nest[0] = 0 if top_nested else nest
+    ns["NEST"] = (lambda fn: nested(fn, nest))
     for i in range(k):
         lines.append("async def a%d(ctx):\n    return s%d(ctx)\n" % (i, i))
-        lines.append("def s%d(ctx):\n    return greenback.await_(W(a%d(ctx)))\n" % (i, i + 1))
+        if i == 0 and top_nested:
+            lines.append("def s0(ctx):\n    return NEST(lambda: greenback.await_(W(a1(ctx))))\n")
+        else:
+            lines.append("def s%d(ctx):\n    return greenback.await_(W(a%d(ctx)))\n" % (i, i + 1))
     if leaf == "async":
         if vantage == "outside":
             lines.append("async def a%d(ctx):\n    await ctx['park']()\n" % k)
@@ -286,6 +306,8 @@ def run_greenback(k, leaf, vantage, wrap=False):
         lines.append("async def a%d(ctx):\n    return s%d(ctx)\n" % (k, k))
         if vantage == "outside":
             lines.append("def s%d(ctx):\n    return greenback.await_(W(ctx['park']()))\n" % k)
+        elif k == 0 and top_nested:
+            lines.append("def s0(ctx):\n    return NEST(lambda: ctx['inside']())\n")
         else:
             lines.append("def s%d(ctx):\n    ctx['inside']()\n" % k)
         names = []
@@ -316,6 +338,8 @@ def run_greenback(k, leaf, vantage, wrap=False):
     vis_user = [user_codes.get(f.pyframe.f_code) for f in vis if f.pyframe.f_code in user_codes]
     if vis_user != names:
         problems.append("a user frame is hidden: visible user frames %r" % (vis_user,))
+    if vantage == "inside" and (not st.frames or st.frames[-1].funcname != "snap"):
+        problems.append("the stack does not reach the function that asked for it: innermost frames %r" % ([f.funcname for f in st.frames[-3:]],))
     return problems, 1
 
 
@@ -433,6 +457,9 @@ def greenback_cases(maxk):
             for vantage in ("outside", "inside"):
                 for wrap in (False, True):
                     yield {"leg": "greenback", "k": k, "leaf": leaf, "vantage": vantage, "wrap": wrap}
+                if vantage == "inside":
+                    for nest in (1, 2):
+                        yield {"leg": "greenback", "k": k, "leaf": leaf, "vantage": vantage, "wrap": False, "nest": nest}
                 for throw_at in [None] + list(range(k + 1)):
                     yield {"leg": "greenback_asyncio", "k": k, "leaf": leaf, "vantage": vantage, "throw_at": throw_at}
 
@@ -446,7 +473,7 @@ def do_case(case):
         return foreign_running(case["asker"], case["nparked"], case["depth"])
     if case["leg"] == "greenback_asyncio":
         return run_greenback_asyncio(case["k"], case["leaf"], case["vantage"], case.get("throw_at"))
-    return run_greenback(case["k"], case["leaf"], case["vantage"], case.get("wrap", False))
+    return run_greenback(case["k"], case["leaf"], case["vantage"], case.get("wrap", False), case.get("nest", 0))
 
 
 def run(ctx):
